@@ -2,6 +2,7 @@ package main
 
 import (
 	"fmt"
+	"go/token"
 	"strings"
 
 	"golang.org/x/tools/go/ssa"
@@ -374,6 +375,26 @@ func ruleC13For(c *Ctx, sub *ssa.Function, do, rr, pm *ssa.Call, first bool) {
 				}
 			}
 			c.obD("R13.4", st, "runtime-write-"+field, okW, "the only field of the shared Runtime written on a call path is `client`, once, under sync.Once, with a fresh http.Client built from the transport's own Transport and Jar", whyW)
+		}
+	}
+	// the shared client is READ only after the Once has been passed: sync.Once.Do is what orders the write of r.client
+	// before every reader — a read (a nil test as "fast path") in front of it races with the first call's write
+	{
+		onces := callsIn(sub, "(*sync.Once).Do")
+		if len(onces) == 1 {
+			for _, in := range instrs(sub) {
+				if in.Parent() != sub {
+					continue
+				}
+				ld, isLd := in.(*ssa.UnOp)
+				if !isLd || ld.Op != token.MUL {
+					continue
+				}
+				if _, isClient := fieldAddrOf(ld.X, runtimeT, "client"); !isClient {
+					continue
+				}
+				c.obI("R13.4", ld, "shared-client-read-behind-the-once", dominates(onces[0], ld), "Submit reads Runtime.client only after clientOnce.Do returned (the Once orders the creation before every read)", "r.client is read on a path that has not passed the Once: a data race with the creating call")
+			}
 		}
 	}
 	c.obRF("R13.4", sub, "lazy-client-under-once", nOnce == 1, "the shared client is created lazily under the sync.Once", fmt.Sprintf("%d guarded initialisations", nOnce))
